@@ -50,6 +50,11 @@ def add_ftask(m, r, d, name, tgt, tn, srcs):
 exec(TASK_SRC)
 
 
+def norm(loc):
+    """one spelling per location for the oracle: l[-1] is l[2]"""
+    return ("l", loc[1] + 3) if len(loc) == 2 and loc[0] == "l" and isinstance(loc[1], int) and loc[1] < 0 else loc
+
+
 class KOracle(G.Oracle):
     def __init__(self):
         super().__init__()
@@ -92,7 +97,7 @@ class KOracle(G.Oracle):
                 return False
             return not self.reaches(self.expand(op[3]), tgt)
         if k == "knob":
-            src, pairs = op[1], op[2]
+            src, pairs = op[1], [(norm(t), w) for t, w in op[2]]
             if any(t in self.defs or t == src for t, _ in pairs):
                 return False
             return not any(self.reaches([src], t) for t, _ in pairs)
@@ -120,7 +125,7 @@ class KOracle(G.Oracle):
 
     def apply(self, op):
         if op[0] == "knob":
-            self.knobs.append(dict(src=op[1], prev=self.value(op[1]), pairs=list(op[2])))
+            self.knobs.append(dict(src=op[1], prev=self.value(op[1]), pairs=[(norm(t), w) for t, w in op[2]]))
         elif op[0] == "ftask":
             self.defs[op[1]] = (op[2], tuple(op[3]))
             self.ftargets.add(op[1])
@@ -207,6 +212,8 @@ def alphabet():
     return [
         ("knob", ("a",), ((("l", 0), 1.0), (("l", 1), 2.0))), ("knob", ("b",), ((("n", "x"), 0.5), (("c",), -1.0))),
         ("knob", ("c",), ((("o", ".p"), 3.0),)), ("knob", ("a",), ((("l", 0), -1.5),)),
+        # the same location twice in one knob (two weights; the second also spelled from the end of the list): the contributions add up
+        ("knob", ("b",), ((("l", 1), 1.0), (("l", 1), 0.25))), ("knob", ("a",), ((("l", 2), 2.0), (("l", -1), -0.5))),
         ("ftask", ("c",), "sum", (("a",), ("b",))), ("ftask", ("n", "y"), "dbl", (("a",),)), ("ftask", ("o", ".q"), "tot", (("l",),)),
         ("ftask", ("l", 2), "mix", (("n", "x"), ("b",))),
         ("expr", ("c",), "sum", (("a",), ("b",))), ("expr", ("o", ".q"), "tot", (("l",),)), ("expr", ("b",), "tot", (("n",),)),
